@@ -25,6 +25,7 @@ from sa.pyfront import Program
 from sa.symex import Interp, flat_guards
 
 RULES = {
+    "R-C01-j": "from_array never divides by the share of uncommon rows while that share can be zero (every row at the common value, e.g. all values mapped onto it): the strategy choice is guarded against it",
     "R-C01-i": "the value mapping is applied exactly when one is given: with a mapping, the key of every construction store, the caller's explicit common value and the counts that elect the common value all go through it (counts by accumulation); without one, none does; to_array sizes its dtype from the entries' VALUES (coords[0])",
     "R-C01-h": "from_array and to_array leave the array, the counts mapping and the value mapping passed to them unchanged (imported from the C17 frame analysis): a second construction from the same caller-supplied counts then sees what the caller built",
     "R-C01-g": "from_array builds its result in one place: no early return of a ready-made index (an entry-less index returned because the data has a single distinct value is wrong whenever the caller-chosen common value is another one)",
@@ -360,6 +361,98 @@ def rule_g_breaks(prog, rep):
         rep.proved("R-C01-g", where, "from_array: no scan loop is left early", "no break statement in the construction")
 
 
+def rule_j(prog, rep):
+    """R-C01-j: from_array divides by the share of uncommon rows to choose its construction strategy.  That share is
+    (total - count(common)) / size: it is ZERO whenever every row holds the common value - which a many-to-one mapping
+    onto the common value produces for any number of distinct input values.  The division must therefore sit behind a
+    test that excludes zero (`ratio == 0 or ...`, `ratio and ...`, `if ratio > 0:`), else ZeroDivisionError."""
+    fi, I, fr = run_from_array(prog)
+    where = fi.fq
+    common = tm.param("common")
+
+    def can_be_zero(d):
+        """a difference `sum(<counts>) - <counts>.get(common ...)` (possibly scaled by a division / float())"""
+        for x in tm.walk(d):
+            if x.op == "binop" and x.args[0] == "-":
+                l, r = x.args[1], x.args[2]
+                if l.op == "call" and tm.callee_name(l) in ("builtins.sum", "numpy.sum") and r.op == "call" and tm.callee_name(r) in (".get", ".__getitem__") and tm.contains(r, lambda y: y == common or (y.op in ("phi", "ifexp", "loopvar") and tm.contains(y, lambda z: z == common))):
+                    return True
+                if l.op == "call" and tm.callee_name(l) in ("builtins.sum", "numpy.sum") and r.op == "sub" and tm.contains(r.args[1], lambda y: y == common or tm.contains(y, lambda z: z == common)):
+                    return True
+        return False
+
+    def zero_test(c, den):
+        """c decides den == 0 / den != 0 (any spelling); returns the truth value c has when den IS zero, or None"""
+        if c == den:
+            return False
+        if c.op == "not" and c.args[0] == den:
+            return True
+        if c.op == "cmp" and den in c.args[1:]:
+            other = c.args[2] if c.args[1] == den else c.args[1]
+            if tm.is_const(other) and other.args[1] in (0, 0.0):
+                op = c.args[0] if c.args[1] == den else {"<": ">", ">": "<", "<=": ">=", ">=": "<="}.get(c.args[0], c.args[0])
+                return {"==": True, "!=": False, ">": False, "<": False, "<=": True, ">=": True}.get(op)
+        return None
+
+    seen = set()
+    n = 0
+    terms = []
+    for e in I.events:
+        for c, pol in e.guards:
+            terms.append((c, e))
+        for v in ([e["value"]] if e.kind in ("store_sub", "return", "store_attr") else []):
+            terms.append((v, e))
+    for t, e in terms:
+        for x in tm.walk(t):
+            if x.op == "binop" and x.args[0] in ("/", "//", "%") and can_be_zero(x.args[2]) and x not in seen:
+                seen.add(x)
+                n += 1
+                den = x.args[2]
+                w = "%s@%d" % (where, getattr(x, "node", None).lineno if getattr(x, "node", None) is not None else e.line)
+                cons = "from_array: the share of uncommon rows is not divided by while it is zero"
+                protected = False
+                # (a) short-circuit: `den == 0 or <... / den ...>`, `den and <... / den ...>`
+                for y in tm.walk(t):
+                    if y.op == "bool" and any(tm.contains(a, lambda z: z is x or z == x) for a in y.args[1:]):
+                        idx = [i for i, a in enumerate(y.args[1:]) if tm.contains(a, lambda z: z == x)][0]
+                        for a in y.args[1:][:idx]:
+                            zt = zero_test(a, den)
+                            if zt is not None and ((y.args[0] == "or" and zt is True) or (y.args[0] == "and" and zt is False)):
+                                protected = True
+                # (b) an enclosing guard excludes zero
+                for c, pol in flat_guards(e.guards):
+                    zt = zero_test(c, den)
+                    if zt is not None and zt != pol:
+                        protected = True
+                # (c) the division was evaluated in one branch of an if whose test excludes zero: the joined value is
+                #     ifexp(test, then-value, else-value)
+                def under(tt, conds):
+                    nonlocal protected
+                    if tt == x:
+                        for c, pol in conds:
+                            zt = zero_test(c, den)
+                            if zt is not None and zt != pol:
+                                protected = True
+                        return
+                    if tt.op == "ifexp":
+                        under(tt.args[1], conds + [(tt.args[0], True)])
+                        under(tt.args[2], conds + [(tt.args[0], False)])
+                        return
+                    for a in tt.args:
+                        if isinstance(a, tm.T):
+                            under(a, conds)
+                        elif isinstance(a, (tuple, list)):
+                            for b in a:
+                                if isinstance(b, tm.T):
+                                    under(b, conds)
+                under(t, [])
+                rep.check(protected, "R-C01-j", w, cons, "a test for zero precedes the division",
+                          "`%s` is evaluated whenever there are 5 or more distinct input values; its denominator is 0 when every row holds the common value - e.g. a mapping that sends all values to the common one - and the construction raises ZeroDivisionError"
+                          % tm.show(x)[:70], witness={"inputs": "iindex.from_array([1, 2, 3, 4, 5, 6], mapping={1: 0, 2: 0, 3: 0, 4: 0, 5: 0, 6: 0}) -> ZeroDivisionError instead of an all-common index"})
+    if n == 0:
+        rep.proved("R-C01-j", where, "from_array: no division by the share of uncommon rows", "no such division in the construction")
+
+
 def rule_i(prog, rep):
     fi = prog.func("iindexes", "iindex.from_array")
     where = fi.fq
@@ -490,6 +583,7 @@ def main(tier):
     rule_e(prog, rep)
     rule_g(prog, rep)
     rule_g_breaks(prog, rep)
+    rule_j(prog, rep)
     rule_i(prog, rep)
     import c17
     st17 = {"events": 0, "mods": 0, "diagnostic": {}, "exceptions": {}, "regions": 0, "shortcuts": 0}
